@@ -341,10 +341,18 @@ theorem emptyTypes_witness :
         (fun v => match v with | .obj [] => true | _ => false) = some true := by
   decide
 
-/-- NullRefEntry: a null entry of `components.schemas` makes serialisation panic (model outcome) -/
-theorem nullRefEntry_witness :
+/-- F-C03-2 (repaired): no position of any kind turns a null entry into a wrapper whose marshaller
+    dereferences a nil `Value` — the nine v3 wrappers check `Value` themselves, and the v2 wrapper (which does
+    not) never sits in a named map or map-like container -/
+theorem no_null_entry_panic : nullEntryPanicReachable descriptors = false := by decide
+
+/-- regression inputs of F-C03-2: a null entry is written back as null, both for value-receiver value kinds
+    and for the nil-tolerant `Callback` -/
+theorem nullRefEntry_fixed :
     (match rt descriptors 8 (.kind "openapi3.Components") (.obj [("schemas", .obj [("A", .null)])]) with
-     | .error .panic => true | _ => false) = true ∧
+     | .ok (.obj [("schemas", .obj [("A", .null)])]) => true | _ => false) = true ∧
+    (match rt descriptors 8 (.maplike "openapi3.Responses") (.obj [("200", .null)]) with
+     | .ok (.obj [("200", .null)]) => true | _ => false) = true ∧
     (match rt descriptors 8 (.kind "openapi3.Components") (.obj [("callbacks", .obj [("A", .null)])]) with
      | .ok _ => true | _ => false) = true := by
   decide
